@@ -305,7 +305,7 @@ def run(run):
     quick = run.tier == "quick"
     scale = getattr(run, "scale", 1.0)
     run.selftest_fail = []
-    run.rule = ("every string over a 32-symbol adversarial alphabet up to length %d (exhaustive) plus random strings to length 40, "
+    run.rule = ("every string over a 32-symbol adversarial alphabet up to length %d (exhaustive) plus random strings to length 40 and 13 long values (4-33 KB) with a multi-byte character across every 4096/8192/32768-byte boundary, "
                 "injected through the environment and passed through %d expansion contexts to an external argv dumper, under "
                 "IFS in {default, empty, ':', a char of the value} x glob options {none, nullglob, failglob, dotglob+extglob, noglob} "
                 "in a directory holding files the value could match; expected bytes are definitional. "
@@ -331,6 +331,21 @@ def run(run):
             ws = [rng2.choice(vals[:1057]) for _ in chunk]
             selftest = rng2.random() < (0.03 if quick else 0.01)
             jobs.append((chunk, ws, cfg, selftest))
+    # long values: a multi-byte character lying across every 4096 / 8192 / 32768-byte boundary (read-chunk sizes),
+    # and long values full of blanks and glob characters; 3 per process so that the environment stays small
+    longs = []
+    # (a single argument may not exceed 128 KiB on Linux and some contexts double the value: values stay below 40 KB)
+    for base_len in (4096, 8192, 32768):
+        for off in ((0, 1, 2, 3) if base_len < 32768 else (1, 3)):
+            longs.append(b"a" * (base_len - off) + "\U0001f680\u00e9 b*".encode("utf-8") + b"c" * 17)
+    longs.append(("a * " * 1100).encode())
+    longs.append(("\u00e9" * 2047 + "x" + "\U0001f680" * 1030).encode("utf-8"))
+    longs.append(b"x" * 4095 + "\u00e9".encode("utf-8") + b"\n\n")
+    for ci, cfg in enumerate(configs if quick else configs[::3]):
+        for k in range(0, len(longs), 3):
+            chunk = longs[k:k + 3]
+            jobs.append((chunk, [b"w"] * len(chunk), cfg, ci == 0 and k == 0))
+    run.count("long_values", len(longs))
     run.count("batches", len(jobs))
     core.pmap(lambda j: judge_batch(run, j), jobs)
     if run.selftest_fail:
